@@ -245,7 +245,12 @@ def pendg2(ctx, pid):
     conds = set()
     kt = None
     for p, st in pq.states(ctx, f, until=lambda ev: ev.node is inc.node and ev.k == "stmt"):
-        conds.add(frozenset((rel_norm(t, pol) or truth_norm(t, pol)) for t, pol, _ in st.log))
+        cs_ = [(rel_norm(t, pol) or truth_norm(t, pol)) for t, pol, _ in st.log]
+        # `found = None; try: found = get_node(..) ...; if found is not None`: get_node never returns None, the test
+        # only says that the read succeeded (which the path already says)
+        cs_ = [c_ for c_ in cs_ if not (len(c_) == 3 and c_[0] == "isnot" and c_[2] == C(None) and isinstance(c_[1], tuple) and c_[1][0] == "call"
+                                        and c_[1][1] == HEX + ".get_node")]
+        conds.add(frozenset(cs_))
         kt = eng.ev(inc.key, f, st)
     root = ("attr", ("self",), "root_hash")
     cm = ctx.P.modules["trie.constants"]
